@@ -3,6 +3,7 @@ package main
 import (
 	"math/rand"
 	"strconv"
+	"strings"
 )
 
 var mdKeys = []string{"a", "b"}
@@ -29,7 +30,39 @@ func genFin(r *rand.Rand) string {
 	}
 }
 
+// genCtx: what the caller's context carries besides outgoing metadata. Most callers of a wrapped server are
+// handlers themselves (routers, proxies, models calling models): incoming metadata of their own request
+// (also under the keys the scripts use for outgoing / header metadata), a peer, values, a deadline.
+func genCtx(r *rand.Rand) string {
+	if r.Intn(5) < 2 {
+		return "-"
+	}
+	var items []string
+	if r.Intn(4) != 0 {
+		var ps []pair
+		for i, n := 0, r.Intn(3); i < n; i++ {
+			ps = append(ps, pair{ctxKeys[r.Intn(len(ctxKeys))], strconv.Itoa(5 + r.Intn(3))})
+		}
+		items = append(items, "I"+mdText(ps))
+	}
+	if r.Intn(3) == 0 {
+		items = append(items, "D")
+	}
+	if r.Intn(3) == 0 {
+		items = append(items, "P")
+	}
+	if len(items) == 0 {
+		return "-"
+	}
+	return strings.Join(items, ",")
+}
+
+var ctxKeys = []string{"up", "u", "a"}
+
 func genLocal(r *rand.Rand) string {
+	if r.Intn(6) == 0 {
+		return "E" // the handler's behaviour depends on the request metadata it sees
+	}
 	switch r.Intn(4) {
 	case 0:
 		return "H" + genMD(r)
@@ -206,8 +239,20 @@ func genCase(r *rand.Rand, size int) scase {
 			cli = append(cli, "c")
 		}
 	}
+	if r.Intn(3) == 0 {
+		// a handler that looks at its request metadata first thing (after the generated code has read the request)
+		at := 0
+		if len(srv) > 0 && srv[0] == "R" && shape != "cstream" && shape != "bidi" {
+			at = 1
+		}
+		srv = append(srv[:at:at], append([]string{"E"}, srv[at:]...)...)
+	}
 	c.Srv = joinOps(srv)
 	c.Cli = joinOps(cli)
+	c.Ctx = genCtx(r)
+	if c.Out == "-" && r.Intn(3) == 0 && !strings.ContainsAny(c.Cli, "xd") {
+		c.Out = "~" // no outgoing metadata at all (a handler passing its own context on)
+	}
 	// occasional perturbation: explores the boundary of the hypothesis (most are filtered out by WFScripts)
 	if r.Intn(10) == 0 && len(cli) > 1 {
 		i := r.Intn(len(cli))
@@ -256,7 +301,7 @@ func abortTail(r *rand.Rand, cli *[]string) {
 // fixed small cases first: they make the first replay per signature small, and contain the scripts of
 // the two divergences found by the side-by-side probe.
 func basicCases() []scase {
-	return mk([][5]string{
+	return append(mk([][5]string{
 		{"unary", "-", "R,M1", "OK", "s1,c,r,h,t"},
 		{"unary", "u=1", "R,Ha=1,Tb=2,M1", "OK", "s1,c,r,h,t"},
 		{"unary", "-", "R", "E5:e0", "s1,c,r,h,t"},
@@ -284,7 +329,29 @@ func basicCases() []scase {
 		{"bidi", "-", "R,W", "OK", "s1,x,r"},
 		{"bidi", "-", "R,R", "OK", "s1,d,r"},
 		{"bidi", "u=1+u=2", "Ha=1,R,W", "OK", "s1,x,r"},
-	})
+	}), ctxCases()...)
+}
+
+// ctxCases: every call shape on the context kinds a caller can have (incoming metadata only, outgoing only, both,
+// neither, with deadline / peer / values), with a handler that echoes the request metadata it sees.
+func ctxCases() []scase {
+	scripts := [][4]string{
+		{"unary", "R,E,M1", "OK", "s1,c,r,h,t"},
+		{"unaryS", "R,E,M1", "OK", "s1,c,r,r,h,t"},
+		{"sstream", "R,E,M1", "OK", "s1,c,r,r,h,t"},
+		{"cstream", "R,E,R,M1", "OK", "s1,c,r,r,h,t"},
+		{"bidi", "R,E,M1", "OK", "s1,r,h,c,r,t"},
+	}
+	kinds := [][2]string{ // out, ctx
+		{"~", "-"}, {"~", "Iup=7"}, {"-", "Iup=7"}, {"u=1", "-"}, {"u=1", "Iup=7+u=9"}, {"~", "Iup=7,D,P"}, {"u=1+u=2", "I,D"}, {"-", "P"},
+	}
+	var out []scase
+	for _, k := range kinds {
+		for _, s := range scripts {
+			out = append(out, scase{Shape: s[0], Out: k[0], Srv: s[1], Fin: s[2], Cli: s[3], Ctx: k[1]})
+		}
+	}
+	return out
 }
 
 func mk(xs [][5]string) []scase {
